@@ -513,8 +513,14 @@ fn decorrelate_scalar_subquery(
         .unwrap_or(join_right_schema.fields().len() - 1);
     let scalar_field = &join_right_schema.fields()[scalar_field_idx];
 
-    // Create a sanitized name for the result column
-    let result_col_name = "__scalar_result".to_string();
+    // Create a sanitized name for the result column, unique per rewrite: two
+    // decorrelated scalar subqueries in one WHERE used to share the name, and
+    // both comparisons then read the first one's value.
+    static SCALAR_RESULT_ID: std::sync::atomic::AtomicU64 = std::sync::atomic::AtomicU64::new(0);
+    let result_col_name = format!(
+        "__scalar_result_{}",
+        SCALAR_RESULT_ID.fetch_add(1, std::sync::atomic::Ordering::Relaxed)
+    );
 
     // Wrap join_right with a projection that renames the scalar column to a safe name
     let mut wrapper_exprs = Vec::new();
